@@ -644,7 +644,7 @@ def extra_bevy(prop, tier, seed, profiles):
             if w[0] == "setkey" and cur["key"] != prev["key"]: key_set = True
             dirty = True
             # keep what the last *frame* announced: chain_animations reads it in the next frame
-            prev = dict(cur, ev=prev["ev"], frame_state=prev.get("frame_state", prev["state"]))
+            prev = dict(cur, ev=prev["ev"], frame_state=prev.get("frame_state", prev["state"]), own_end=prev.get("own_end", False))
             continue
         delta = int(w[1])
         hist["frames"] += 1
@@ -697,6 +697,22 @@ def extra_bevy(prop, tier, seed, profiles):
                 hist["setkey-switches"] += 1
                 if cur["comp"] != prev["comp"]:
                     fail(L, "changing the key does not make the component jump", o, str(prev["comp"]))
+            # positive direction: the governed animator ended in the last frame (its own transition to Ended, announced by
+            # an Ended event) while key k was active, nothing but key assignments happened since, the key is still k at the
+            # start of this frame and the chain maps k -> k' (last entry for k wins, HashMap insert): this frame moves the
+            # selector to k'.  (chain_animations reads the events of frame M in frame M+1.)
+            if cfg["chain"] != "none" and prev.get("own_end") and prev["enabled"] and not other_ext and prev["key"] is not None \
+                    and prev["key"] == frame_key:
+                cmap = {}
+                for pair in cfg["chain"].split(","):
+                    a, b2 = pair.split(">"); cmap[int(a)] = int(b2)
+                k = prev["key"]
+                if k in cmap and cmap[k] != k:
+                    hist["chain-advance-checked"] = hist.get("chain-advance-checked", 0) + 1
+                    if dirty: hist["chain-advance-after-reassign"] = hist.get("chain-advance-after-reassign", 0) + 1
+                    # the chain may map k' onwards only on a further Ended event, so after one frame the key is exactly k'
+                    if cur["key"] != cmap[k]:
+                        fail(L, "when the governed animator ends while key k is active and the chain maps k to k', the selector moves to k'", o, f"key={cmap[k]}")
             if cur["key"] != prev["key"] and cur["key"] is not None:
                 # the key moved during a frame: only chain_animations can do that, and only on an Ended event
                 hist["key-changes-by-chain"] += 1
@@ -709,7 +725,8 @@ def extra_bevy(prop, tier, seed, profiles):
                     f = dict(line=L, directive="relational chain fires only when its own animator ended", op=ops[L], got=o, want=impl[L - 1], ops=P.block_of(ops, L), other_animator=True)
                     fails.append(f)
         moved_in_frame = cur["key"] != prev["key"]
-        prev, dirty, key_set = dict(cur, frame_state=cur["state"]), False, False
+        own_end = prev["state"] != 3 and cur["state"] == 3 and 3 in cur["ev"]
+        prev, dirty, key_set = dict(cur, frame_state=cur["state"], own_end=own_end), False, False
         frame_key, other_ext, nframes = cur["key"], False, nframes + 1
     return dict(checked=checked, fails=fails, evaluations=checked, hist=hist)
 
@@ -916,7 +933,7 @@ def py_derive(w):
     for f in w[4:]:
         n, rest = f.split(":", 1)
         ty, a = rest.rsplit(":", 1)
-        fields.append((n, ty.replace("~", "::"), a == "a"))
+        fields.append((n, ty.replace("~", "::"), a in ("a", "A")))   # A / N: the field also carries other attributes
     anim = [f for f in fields if f[2]] or fields
     rn = remote.split("::")[-1] if remote else name
     names = ",".join(f[0] for f in anim)
